@@ -1,6 +1,9 @@
 package main
 
 import (
+	"time"
+	"syscall"
+	"net"
 	"sync"
 	"bytes"
 	"context"
@@ -463,11 +466,104 @@ func permsOf(e Entry) int {
 	return int(e.Perms)
 }
 
+// gitNetExec: recipe "gitnet <seed>" — the repository is reached over the git:// transport (rio clones it into its
+// object cache): a commit reachable only through a tag, one only through a non-default branch, and the default branch's
+// head must all unpack to their trees.
+func gitNetExec(c *Ctx, op string) {
+	c.Begin(op)
+	gitCase++
+	base := filepath.Join(c.Work, fmt.Sprintf("gn%d", gitCase))
+	defer rmrf(base)
+	repo := filepath.Join(base, "netrepo")
+	os.MkdirAll(repo, 0755)
+	os.Setenv("RIO_CACHE", filepath.Join(base, "cache"))
+	os.Setenv("RIO_BASE", filepath.Join(base, "riobase"))
+	if _, err := gitCmd(repo, "init", "-q", "."); err != nil {
+		c.EmitR(op, "skip", "skip")
+		return
+	}
+	commit := func(name, body string) string {
+		os.WriteFile(filepath.Join(repo, name), []byte(body), 0644)
+		gitCmd(repo, "add", "-A")
+		gitCmd(repo, "commit", "-q", "-m", name)
+		h, _ := gitCmd(repo, "rev-parse", "HEAD")
+		return strings.TrimSpace(h)
+	}
+	c0 := commit("base.txt", "base")
+	def, _ := gitCmd(repo, "rev-parse", "--abbrev-ref", "HEAD")
+	def = strings.TrimSpace(def)
+	gitCmd(repo, "checkout", "-q", "-b", "release")
+	cTag := commit("tagged.txt", "only a tag keeps this commit")
+	gitCmd(repo, "tag", "v1.0")
+	gitCmd(repo, "checkout", "-q", def)
+	gitCmd(repo, "branch", "-q", "-D", "release")
+	gitCmd(repo, "checkout", "-q", "-b", "side")
+	cSide := commit("side.txt", "on a side branch")
+	gitCmd(repo, "checkout", "-q", def)
+	cHead := commit("head.txt", "head of the default branch")
+	l, err := net.Listen("tcp", "127.0.0.1:0")
+	if err != nil {
+		c.EmitR(op, "skip", "skip")
+		return
+	}
+	port := l.Addr().(*net.TCPAddr).Port
+	l.Close()
+	daemon := exec.Command("git", "daemon", "--reuseaddr", "--listen=127.0.0.1", fmt.Sprintf("--port=%d", port), "--base-path="+base, "--export-all", base)
+	daemon.SysProcAttr = &syscall.SysProcAttr{Setpgid: true}
+	if daemon.Start() != nil {
+		c.EmitR(op, "skip", "skip")
+		return
+	}
+	defer func() {
+		syscall.Kill(-daemon.Process.Pid, syscall.SIGKILL)
+		daemon.Wait()
+	}()
+	up := false
+	for i := 0; i < 100 && !up; i++ {
+		if cn, e := net.DialTimeout("tcp", fmt.Sprintf("127.0.0.1:%d", port), 100*time.Millisecond); e == nil {
+			cn.Close()
+			up = true
+		} else {
+			time.Sleep(50 * time.Millisecond)
+		}
+	}
+	if !up {
+		c.H("gitnet:daemon-not-up")
+		c.EmitR(op, "skip", "skip")
+		return
+	}
+	wh := []api.WarehouseLocation{api.WarehouseLocation(fmt.Sprintf("git://127.0.0.1:%d/netrepo", port))}
+	uf := api.MustParseFilesetUnpackFilter(losslessUnpackStr)
+	for i, cs := range []struct{ commit, file, how string }{{cTag, "tagged.txt", "reachable only through a tag"}, {cSide, "side.txt", "on a non-default branch"}, {cHead, "head.txt", "the default branch's head"}, {c0, "base.txt", "an ancestor"}} {
+		dst := filepath.Join(base, fmt.Sprintf("dst%d", i))
+		_, e, pan := safeCall(func() (api.WareID, error) {
+			return gittrans.Unpack(context.Background(), api.WareID{Type: "git", Hash: cs.commit}, dst, uf, rio.Placement_Direct, wh, rio.Monitor{})
+		})
+		switch {
+		case pan != "":
+			c.PropFail("git-panic", "unpack over git://: "+pan, op)
+		case e != nil:
+			c.PropFail("git-unpack-failed", fmt.Sprintf("a commit the remote repository has (%s) cannot be unpacked over git://: %v", cs.how, e), op)
+		default:
+			if _, se := os.Lstat(filepath.Join(dst, cs.file)); se != nil {
+				c.PropFail("git-missing", fmt.Sprintf("unpack over git:// of the commit %s lacks %s", cs.how, cs.file), op)
+			}
+			if _, se := os.Lstat(filepath.Join(dst, ".git")); se == nil {
+				c.PropFail("git-extra", "the unpacked tree contains .git", op)
+			}
+		}
+	}
+	c.H("gitnet:done")
+	c.EmitR(op, "skip", "skip")
+}
+
 func gitEngine(c *Ctx) {
 	if ls := replayLines(); ls != nil {
 		for _, op := range ls {
 			if strings.HasPrefix(op, "git ") {
 				gitExec(c, op)
+			} else if strings.HasPrefix(op, "gitnet ") {
+				gitNetExec(c, op)
 			}
 		}
 		return
@@ -476,6 +572,7 @@ func gitEngine(c *Ctx) {
 	if c.Tier == "thorough" {
 		n = 120
 	}
+	gitNetExec(c, "gitnet 1")
 	laters := []string{"none", "commit", "branch", "dirty", "detach"}
 	filts := []string{losslessUnpackStr, losslessUnpackStr, "uid=mine,gid=mine,mtime=follow,sticky=follow,setid=follow,dev=follow", "uid=5,gid=6,mtime=@99,sticky=follow,setid=follow,dev=follow"}
 	for k := 0; k < n; k++ {
